@@ -57,6 +57,10 @@ pub enum Op {
     /// high-cardinality churn: n distinct comments / expressions / caller-made calendars in a row, half of the
     /// values kept alive, half dropped at once (reaches the eviction / sweep paths of any cache or interner)
     Churn { kind: u8, seed: u32, n: u32, t: i64 },
+    /// an evaluation under a caller-written locale whose `event_time` evaluates another schedule (`inner`) on the
+    /// calling thread: an evaluation entered while another one is half-way. `reentrant: false` is its reference form
+    /// (the inner schedule's answers are asked before the outer evaluation starts)
+    Nested { e: String, inner: String, t: i64, n: u32, reentrant: bool },
     /// two iterators alive at once on one thread, advanced in turns (n intervals each): whatever an iterator keeps
     /// outside itself (thread-local budgets, scratch state "owned" by the live iterator) is then shared by two of them
     Zip { e1: String, t1: i64, e2: String, t2: i64, n: u32 },
@@ -616,6 +620,16 @@ pub fn generate_for(rng: &mut Rng, p: &Pools, mode: &str, idx: u64) -> Workload 
                 let pos = rng.usize_below(w.threads[th].len() + 1);
                 let e = rng.pick(&["PH", "PH off; Mo-Su 10:00-12:00", "Mo-Fr 09:00-17:00; PH off", "PH,Su 10:00-14:00"]).to_string();
                 w.threads[th].insert(pos, Op::EditedCalendar { e, k: rng.below(6) as u32, t: *rng.pick(&p.instants), n: rng.range(8, 60) as u32 });
+            }
+            // re-entrant evaluation through the Localize seam
+            if rng.chance(1, 4) {
+                let e = rng.pick(&["10:00-12:00,sunset-22:00", "sunrise-sunset", "(sunrise+01:00)-(sunset-01:00); Mo off", "10:00-12:00,sunset-22:00; Su dawn-dusk", "Mo-Fr 08:00-12:00,14:00-sunset \"see notice\"; Sa sunrise-12:00", "dawn-10:00,12:00-14:00,16:00-dusk"]).to_string();
+                let inner = rng.pick(&["Mo-Fr 09:00-17:00", "10:00-12:00,14:00-16:00", "Mo,We,Fr 10:30-11:30; Su 08:00-20:00", "sunrise-sunset; Tu off", "Jan-Jun Mo-Sa 08:00-12:00; Jul-Dec 14:00-18:00"]).to_string();
+                for _ in 0..rng.range(1, 3) {
+                    let th = rng.usize_below(w.threads.len());
+                    let pos = rng.usize_below(w.threads[th].len() + 1);
+                    w.threads[th].insert(pos, Op::Nested { e: e.clone(), inner: inner.clone(), t: *rng.pick(&p.instants), n: rng.range(2, 14) as u32, reentrant: true });
+                }
             }
             // year aliases at the edges of the supported range: the same year-keyed expression in year y and in
             // y +- 2^k, y the first or the last supported year or an ordinary one (tables indexed by a year modulo
